@@ -1,4 +1,5 @@
 import SieveModel.Lemmas.ClientState
+import SieveModel.Lemmas.Session
 import SieveModel.Generated.ClientMethods
 import SieveModel.Generated.MsConsts
 /-!
@@ -57,5 +58,25 @@ theorem capabilities_reset_at_handshake (c : Client) :
     (tlsWrapped c).caps = [] ∧ (tlsWrapped c).r.buf = [] ∧ (tlsWrapped c).tls = true := ⟨rfl, rfl, rfl⟩
 
 example : (havespace { r := { buf := [], net := { stream := [], sched := [] } } } (sb "n") 1).1 = .error .error := rfl
+
+/-! ## over whole sessions -/
+
+/-- **an unauthenticated client sends no script command, whatever is tried and however often**: every script
+    operation of any session raises Error and the client — its write log included — stays exactly what it was -/
+theorem unauthenticated_sessions_write_nothing (ops : List Op) (c : Client) (h : c.authenticated = false)
+    (hs : ∀ op ∈ ops, op.onScripts = true) :
+    (runOps c ops).2 = c ∧ ∀ r ∈ (runOps c ops).1, r = .error .error :=
+  unauthenticated_session ops c h hs
+
+/-- **no operation authenticates, secures or reconnects the client behind the caller's back**: after any session the
+    authenticated, TLS and connected flags are what they were, and everything written during it went out on the channel
+    the session started on (so after `connect` with STARTTLS — `connect_success_implies_tls` — every later command of the
+    session travels on the secured channel) -/
+theorem sessions_keep_the_connection_state (ops : List Op) (c : Client) :
+    (runOps c ops).2.authenticated = c.authenticated ∧ (runOps c ops).2.tls = c.tls ∧
+    (runOps c ops).2.connected = c.connected ∧
+    ∃ ws : List Bytes, (runOps c ops).2.writes = c.writes ++ ws.map (fun b => (c.tls, b)) := by
+  have h := runOps_keeps ops c
+  exact ⟨h.auth, h.tls, h.conn, h.writes⟩
 
 end C10
